@@ -29,7 +29,7 @@ ASSUMPTIONS = ["nvmon.ref exact reference for vertex positions (uv within 1e-12 
 FLOORS = {'quick': {'topology': 150, 'vertex-on-surface': 1500, 'quads': 100, 'trim-cells': 1000, 'obj': 60, 'off': 60, 'stl-ascii': 60,
                     'stl-binary': 60, 'container': 30},
           'thorough': {'topology': 1500, 'vertex-on-surface': 15000, 'trim-cells': 10000}}
-MANDATORY_TAGS = ['partial-evaluate-before', 'spacing1', 'spacing>=2', 'spacing>=3', 'spacing:not-dividing', 'rational', 'trim:freeform', 'trim:spline', 'trim:reversed', 'trim:clockwise', 'trim:non-unit-domain', 'trim:added-after-tessellation', 'trim:setter-replaces', 'tessellator:reinstalled-after-edit', 'container', 'container:tessellator-replaced', 'quad:as-surface-tessellator', 'export:quad-mesh',
+MANDATORY_TAGS = ['mesh:kept-across-edit', 'partial-evaluate-before', 'spacing1', 'spacing>=2', 'spacing>=3', 'spacing:not-dividing', 'rational', 'trim:freeform', 'trim:spline', 'trim:reversed', 'trim:clockwise', 'trim:non-unit-domain', 'trim:added-after-tessellation', 'trim:setter-replaces', 'tessellator:reinstalled-after-edit', 'container', 'container:tessellator-replaced', 'quad:as-surface-tessellator', 'export:quad-mesh',
                   'quad', 'non-unit-domain', 'export:file']
 TECHNIQUE = ("runtime monitoring: structural + exact-geometric oracle over every tessellation the workload produces (ids, indices, "
              "orientation, exact area cover, edge incidence, Euler characteristic, vertex = surface(uv)), cell-classification oracle "
@@ -451,6 +451,19 @@ def check_plain(case, ctx):
         import struct as _st
         ctx.check(len(stl_bin) == 84 + 50 * _st.unpack('<i', stl_bin[80:84])[0] and _st.unpack('<i', stl_bin[80:84])[0] == 2 * nq, 'export/quad-stl',
                   'binary STL export of %d quads: %d bytes, header says %d facets' % (nq, len(stl_bin), _st.unpack('<i', stl_bin[80:84])[0]), what='stl-binary')
+    # ---- the mesh handed out is the caller's: a later edit gives a NEW mesh, it does not empty the lists read before ----------------------
+    if rng.random() < 0.4:
+        o4 = G.build(sd)
+        o4.sample_size_u, o4.sample_size_v = nu, nv
+        kv_, kf_ = o4.vertices, o4.faces
+        nkv, nkf = len(kv_), len(kf_)
+        first_pos = [list(v.data) for v in kv_[:3]]
+        o4.sample_size_u = nu + 2
+        ctx.tag('mesh:kept-across-edit')
+        len(o4.vertices)
+        ctx.check(len(kv_) == nkv and len(kf_) == nkf and [list(v.data) for v in kv_[:3]] == first_pos, 'mesh/kept-lists-emptied',
+                  'the vertex / face lists read before a sample-size change hold %d / %d entries afterwards (had %d / %d): the mesh handed '
+                  'out earlier was emptied in place' % (len(kv_), len(kf_), nkv, nkf), what='topology')
     # ---- a tessellation component taken off the surface and installed again later (after an edit) must not bring its old mesh back ------
     if rng.random() < 0.4:
         from geomdl import operations
